@@ -312,6 +312,62 @@ def p_C01(ctx):
     return ctx.finish("P_C01 (conservation per carrier, step and source; link to the component list) evaluated by TLC on every Eval event: all lattice buildings, shipped files and seeded random buildings, both load-matching modes; non-trivial = events (each has >= 1 carrier x step point)")
 
 
+def cli_histories(ctx, name, trace_module, runs, meta="", count=None, locs=("PENINSULA",)):
+    """Histories made with the REAL PROGRAM: every text (shipped files, hand-written shapes, seeded random buildings)
+    is written, optionally behind metadata lines, and evaluated once per run of `runs` - dicts with a tag, the extra
+    command line arguments and the parameters (kexp, area, lm) the run states; the --json results are flattened by
+    the harness (mode flatjson) into the same Eval events as the library's, and judged by the same trace module."""
+    import cli, shutil, gen
+    vlib.build(cli=True)
+    d = os.path.join(WORK, "run", ctx.pid)
+    tmp = os.path.join(d, "cli-" + name)
+    shutil.rmtree(tmp, ignore_errors=True)
+    os.makedirs(tmp, exist_ok=True)
+    texts = [(os.path.relpath(p, REPO), open(p, encoding="utf-8", errors="replace").read()) for p in shipped_files()]
+    texts += [("shape%d" % i, t) for i, t in enumerate(C08_SHAPES)]
+    texts += [("random%d" % i, render_abs(c["src"]["comps"])) for i, c in enumerate(gen.cases(ctx.seed, count or (25 if ctx.quick else 400), None, aux=True))]
+    jobs = []
+    for name_, text in texts:
+        ctx.ncases += 1
+        n = ctx.ncases
+        ctx.cases[n] = {"name": name_, "text": meta + text, "runs": runs}
+        base = os.path.join(tmp, str(n))
+        open(base + ".csv", "w").write(meta + text)
+        for r in runs:
+            jobs.append((n, r, base))
+    def one(job):
+        n, r, base = job
+        jp = "%s.%s.json" % (base, r["tag"])
+        res = cli.run_proc(["-c", base + ".csv", "-l", locs[n % len(locs)], "--json", jp] + r.get("argv", []), tmp)
+        rec = {"case": n, "tag": r["tag"], "json": jp, "exit": res["exit"] if isinstance(res["exit"], int) else -1}
+        for k in ("kexp", "area", "lm"):
+            if k in r:
+                rec[k] = r[k]
+        return rec
+    import concurrent.futures as cf
+    with cf.ThreadPoolExecutor(max_workers=vlib.NCPU) as ex:
+        recs = list(ex.map(one, jobs))
+    ipath, tpath = os.path.join(d, "cli-%s.in" % name), os.path.join(d, "cli-%s.ndjson" % name)
+    with open(ipath, "w") as f:
+        for x in recs:
+            f.write(json.dumps(x) + "\n")
+    vlib.run_harness("flatjson", ipath, tpath)
+    res = vlib.validate(trace_module, tpath)
+    ctx.events += res["events"]
+    ctx.verdicts += res["verdicts"]
+    ctx.drifts += res["drifts"]
+    ctx.unjudged += res["unjudged"]
+    if not res["accepted"]:
+        ctx.rejected = True
+    if res["verdicts"]:
+        for line in open(tpath):
+            e = json.loads(line)
+            ctx.vevents[(e.get("case"), e.get("tag"))] = {"comps": e.get("comps"), "kexp": e.get("kexp"), "area": e.get("area"), "lm": e.get("lm")}
+    shutil.rmtree(tmp, ignore_errors=True)
+    ctx.extra["program_histories_" + name] = len(texts)
+    return res
+
+
 def p_C03(ctx):
     st = lattice(ctx)
     K = [("k0", [0, 1]), ("k100", [1, 1]), ("k25", [1, 4]), ("k50", [1, 2]), ("k30", [3, 10])]
@@ -322,6 +378,13 @@ def p_C03(ctx):
     ctx.replay(file_cases([dict(r, lm=True) for r in runs]), "files-lm", "Trace_C03")
     ctx.replay(rnd(ctx, 150, 5000, runs), "random", "Trace_C03")
     ctx.samples += ctx.sample_from_trace(ctx.last_trace, 1)
+    # the same histories made with the real program: files that carry another k_exp (and an area) as metadata, the option
+    # given as 0, 1 and interior values, and once not given at all (the metadata value 0.7 is then the one used)
+    cli_histories(ctx, "kexp", "Trace_C03",
+                  [{"tag": "k0", "argv": ["--kexp=0"], "kexp": [0, 1], "lm": False}, {"tag": "k100", "argv": ["--kexp=1"], "kexp": [1, 1], "lm": False},
+                   {"tag": "k25", "argv": ["--kexp=0.25"], "kexp": [1, 4], "lm": False}, {"tag": "k50", "argv": ["--kexp", "0.5"], "kexp": [1, 2], "lm": False},
+                   {"tag": "k70", "argv": [], "kexp": [7, 10], "lm": False}],
+                  meta="#META CTE_KEXP: 0.7\n#META CTE_AREAREF: 3.5\n", locs=("PENINSULA", "CANARIAS"))
     ctx.nontrivial = set(range(ctx.ncases))
     ctx.assumptions = [TOL_NOTE, TRUST, "model level: MC_C02!CheckK (exact affine identity on the whole lattice)"]
     return ctx.finish("histories of five evaluations (k_exp = 0, 1, 1/4, 1/2, 3/10) per building; TLC checks the affine identity on every step-B path (per carrier, per service, total, per m2), k-independence of every other field, B(0) = A and no-export => constant; quick tier replays one third of the lattice (phase chosen by the seed)")
@@ -340,6 +403,11 @@ def p_C04(ctx):
     ctx.replay(base_area(file_cases(runs)), "files", "Trace_C04")
     ctx.replay(base_area(rnd(ctx, 150, 5000, runs)), "random", "Trace_C04")
     ctx.samples += ctx.sample_from_trace(ctx.last_trace, 1)
+    # the same histories made with the real program (the area of the base run comes from the file's metadata)
+    cli_histories(ctx, "area", "Trace_C04",
+                  [{"tag": "base", "argv": [], "area": [7, 2], "kexp": [7, 10], "lm": False}, {"tag": "a2", "argv": ["--arearef=2.5"], "area": [5, 2], "kexp": [7, 10], "lm": False},
+                   {"tag": "a3", "argv": ["-a", "200"], "area": [200, 1], "kexp": [7, 10], "lm": False}, {"tag": "a4", "argv": ["--arearef", "0.5"], "area": [1, 2], "kexp": [7, 10], "lm": False}],
+                  meta="#META CTE_KEXP: 0.7\n#META CTE_AREAREF: 3.5\n")
     ctx.nontrivial = set(range(ctx.ncases))
     ctx.assumptions = [TOL_NOTE, TRUST, "the aggregation schema is data of Trace_C04.tla; a path of Balance outside the schema is reported as DRIFT"]
     return ctx.finish("aggregation schema (every path of Balance = sum of per-carrier paths), breakdown identities, balance_m2 * area = balance on every path, and histories over four areas; checked by TLC on every event")
@@ -354,6 +422,9 @@ def p_C12(ctx):
     ctx.replay(file_cases(runs), "files", "Trace_C12")
     ctx.replay(rnd(ctx, 400, 20000, runs), "random", "Trace_C12")
     ctx.samples += ctx.sample_from_trace(ctx.last_trace, 1)
+    # the same pairs made with the real program (flag --load_matching)
+    cli_histories(ctx, "lm", "Trace_C12",
+                  [{"tag": "lm0", "argv": [], "lm": False, "kexp": [0, 1], "area": [1, 1]}, {"tag": "lm1", "argv": ["--load_matching"], "lm": True, "kexp": [0, 1], "area": [1, 1]}])
     ctx.assumptions = [TOL_NOTE, TRUST, "model level: MC_C02!CheckPrio; formula (32) is checked on traces for any ratio with a tolerance that accounts for the rounding of the logged operands"]
     return ctx.finish("P_C12 on the ELECTRICIDAD balance of two-evaluation histories (load matching off, on): priority, bounds, f = 1 without load matching, formula (32), monotone effect; non-trivial = cases with both sources producing and 0 < PV < use at some step (counted by the trace specification)")
 
